@@ -43,6 +43,7 @@ fn run_case(case: &Case, viols: &mut Sink) -> Cnt {
         }
         Case::Silhouette { .. } | Case::SilhouetteF { .. } => clust::run_silhouette(case, viols),
         Case::Layouts { base } => run_layouts(case, base, viols),
+        Case::Scaled { base, factors } => run_scaled(case, base, factors, viols),
         Case::Replicated { base, n, layouts } => {
             let long = expand(base, *n);
             let mut cnt = run_case(&long, viols);
@@ -104,6 +105,45 @@ fn run_layouts(outer: &Case, base: &Case, viols: &mut Sink) -> Cnt {
         }
         _ => panic!("no layout check for this kind of case"),
     }
+}
+
+/// Scaled copies. Regression is judged by its own scale-aware comparison (violations carry the
+/// `Scaled` wrapper); scores / silhouette / Pearson are dimensionless, so the scaled literal case simply
+/// goes through the normal oracle (violations carry that literal case).
+fn run_scaled(outer: &Case, base: &Case, factors: &[f64], viols: &mut Sink) -> Cnt {
+    let f0 = factors[0];
+    let fac = |j: usize| factors[j % factors.len()];
+    let mut cnt = match base {
+        Case::Regr { float, pred, truth, .. } => {
+            if float == "f32" {
+                regr::run_regr_scaled::<f32>(outer, float, pred, truth, f0, viols)
+            } else {
+                regr::run_regr_scaled::<f64>(outer, float, pred, truth, f0, viols)
+            }
+        }
+        Case::RegrMulti { float, pred_cols, truth_cols } => {
+            if float == "f32" {
+                regr::run_regr_multi_scaled::<f32>(outer, float, pred_cols, truth_cols, factors, viols)
+            } else {
+                regr::run_regr_multi_scaled::<f64>(outer, float, pred_cols, truth_cols, factors, viols)
+            }
+        }
+        Case::Scores { scores, truth, perms } => run_case(&Case::Scores { scores: scores.iter().map(|&s| s * f0 as f32).collect(), truth: truth.clone(), perms: perms.clone() }, viols),
+        Case::Silhouette { points, labels, perms } => {
+            run_case(&Case::Silhouette { points: points.iter().map(|p| p.iter().map(|x| x * f0).collect()).collect(), labels: labels.clone(), perms: perms.clone() }, viols)
+        }
+        Case::SilhouetteF { float, points, labels, perms } => run_case(
+            &Case::SilhouetteF { float: float.clone(), points: points.iter().map(|p| p.iter().map(|x| x * f0).collect()).collect(), labels: labels.clone(), perms: perms.clone() },
+            viols,
+        ),
+        Case::Pearson { float, cols, perms } => run_case(
+            &Case::Pearson { float: float.clone(), cols: cols.iter().enumerate().map(|(j, c)| c.iter().map(|x| x * fac(j)).collect()).collect(), perms: perms.clone() },
+            viols,
+        ),
+        _ => panic!("this kind of case cannot be scaled"),
+    };
+    cnt.bump("scale.scaled_cases", 1);
+    cnt
 }
 
 fn cyc<T: Clone>(v: &[T], n: usize) -> Vec<T> {
@@ -198,7 +238,7 @@ enum Group {
     Explicit { cases: Vec<Case> },
 }
 
-const SIL_LABEL_VALUES: [usize; 3] = [5, 2, 9];
+const SIL_LABEL_VALUES: [usize; 5] = [5, 2, 9, 1, 7];
 
 impl Group {
     /// cardinality, computed independently of `for_each`
@@ -289,6 +329,7 @@ fn main() {
          (c2/b2) structured long vectors: regression vectors of every length 6..40 / 6..72 whose absolute errors are every strided permutation (stride coprime to n, every offset [every third in quick]) of n distinct values, and score vectors of length 6..20 / 6..32 with heavy ties ((i*s+o) mod m)/m, m in {2,3,4,7}; \
          (L) memory layouts: a subset of (a)-(e) (see source: L-regression, L-scores, L-labels, L-silhouette, L-Pearson) with every input handed over as reversed view of a reversed copy, every-second / every-third element view of a poisoned parent, column-major owned matrix, transposed view of a feature-major matrix, reversed-row view, every-second-row / every-second-column view of a poisoned parent (all combinations of prediction and truth layout); the result must equal the standard-layout run (discrete outputs exactly, floats within twice the tolerance; the share of bit-identical values is reported); \
          (N) large inputs: bases of length 3,4,5,7,17,25 repeated cyclically to n = 1025 and n = 4097 rows for every metric family (silhouette at 4097: thorough only) incl. 17- and 33-column multi-target / Pearson matrices, through the same references (for n a multiple of the base length the reference must also equal the base's: closed form), also under the layouts; (F) silhouette in f32; \
+         (S) scale: subsets of the regression / Pearson / silhouette / score catalogues with every value multiplied by 1e-12, 1e-8, 1e-5, 1e-2, 1e3, 1e8 (f64) or 1e-5, 1e-2, 1e3 (f32), Pearson and 3-column multi-target regression also with a different factor per column (1e-8 | 1 | 1e8 ...), scores by 0.5, 1e-3, 1e-6, 1e-12; scale-invariant scores (Pearson r, R2, explained variance, MAPE, silhouette, AUC) and scale-equivariant ones (max / mean / median absolute error, MSE) against the definition on the scaled values at the relative tolerance, without any absolute slack; silhouette additionally with every 4-labelling of 8 points (thorough: every 5-labelling of 10 points); \
          (e) Pearson: every matrix with 2..4 rows and 2..3 columns (quick) / up to 5 rows or 4 columns (thorough) over {-1,0,2} (and {-1,0,.5,2}), plus every 4x4 and 3x5 (thorough: 4x5) matrix over {-1,2} so that the order of the packed coefficients is observable. \
          Every case is additionally re-run under permutations applied to both sides: all n!-1 for small n (usize/String labels n<=4, bool n<=4/5, scores n<=4/5, regression n<=3/4, silhouette n<=4/5, Pearson rows<=4), the generating set {swap(0,1), rotation, reversal} beyond (the sweep visits every input, so invariance under generators at every input implies invariance under every permutation); quick runs the longest regression length without explicit permutations. \
          evaluations = distinct in-domain inputs run through all of their metrics; non-trivial = labels: >=2 classes and prediction != truth; scores: 0 < AUC < 1; regression: prediction != truth; silhouette: every in-domain labelling; Pearson: some |r| < 1.",
@@ -299,7 +340,7 @@ fn main() {
     ctx.assume("ROC curve points / thresholds: 2e-6 absolute; AUC 1e-5 absolute against Mann-Whitney U/(P*N) with ties 1/2; ROC needs both classes (single-class truth vectors counted out_of_domain for ROC, still used for log-loss); scores closer than 1e-10 to each other (the implementation's tie tolerance) are not in the alphabets");
     ctx.assume("log-loss reference clips to [f32::EPSILON, 1 - f32::EPSILON] as the implementation documents by its code (the rustdoc gives no clip level); tolerance relative max(1e-5, n * 2^-24) + 1e-6 (the subject sums n f32 terms sequentially; the n-term exceeds 1e-5 only for the n >= 1025 inputs)");
     ctx.assume("regression tolerance: f64 relative 1e-9 (f32 1e-4) scaled by the operand magnitude (max error, squared max error, SSres/SStot); R2 / explained variance additionally 2*ratio*1e-10/SStot for the documented 1e-10 denominator guard; MSLE only for inputs > -1, MAPE only for receivers without a 0 entry, R2 / EV only for non-constant truth (filtered inputs counted)");
-    ctx.assume("silhouette: euclidean, domain = >=2 clusters each with >=2 distinct points (others counted out_of_domain), tolerance 1e-9; Pearson: non-constant columns, >=2 rows, tolerance 1e-9 (f32 1e-4); permuted re-runs of float scores may differ by twice the tolerance (reordered sums), discrete outputs must be identical");
+    ctx.assume("silhouette: euclidean, domain = >=2 clusters each with >=2 distinct points (others counted out_of_domain), tolerance 1e-9; Pearson: non-constant columns, >=2 rows, tolerance 1e-9 (f32 1e-4) on the dimensionless scores whatever the scale of the inputs; permuted re-runs of float scores may differ by twice the tolerance (reordered sums), discrete outputs must be identical");
     ctx.assume("the p-values of PearsonCorrelation (entropy-seeded permutation test) are not part of the property and not checked");
 
     // ------------------------------------------------------------------ enumerate groups
@@ -674,6 +715,103 @@ fn main() {
         }
         ctx.extra("hardening.large_cases_enumerated", json!(cases.len()));
         chunked(&mut groups, cases, 1);
+    }
+
+    {
+        // (S) scale: scaled copies of catalogue members, f64 factors 1e-12 .. 1e8, f32 1e-5 .. 1e3,
+        // per-column factor mixes (a tiny column next to a huge one) for Pearson / multi-target
+        let mut cases: Vec<Case> = Vec::new();
+        let sc = |c: Case, f: Vec<f64>| Case::Scaled { base: Box::new(c), factors: f };
+        let f64_factors = [1e-12, 1e-8, 1e-5, 1e-2, 1e3, 1e8];
+        let f32_factors = [1e-5, 1e-2, 1e3];
+        let factors_of = |float: &str| -> Vec<f64> { if float == "f32" { f32_factors.to_vec() } else { f64_factors.to_vec() } };
+        let mixes_of = |float: &str| -> Vec<Vec<f64>> {
+            if float == "f32" {
+                vec![vec![1e-5, 1e3, 1.0], vec![1e3, 1e-2, 1e-5]]
+            } else {
+                vec![vec![1e-8, 1.0, 1e8], vec![1e-12, 1e3, 1e-5], vec![1e8, 1e-12, 1e-2]]
+            }
+        };
+        for float in ["f64", "f32"] {
+            // S-regression: every (pred, truth) of length 2, every third of length 3 (thorough: all), structured lengths
+            for n in 2..=3usize {
+                for (k, p) in en::sequences(n, ralpha.len()).into_iter().enumerate() {
+                    for t in en::sequences(n, ralpha.len()) {
+                        if t.iter().all(|&x| x == t[0]) {
+                            continue;
+                        }
+                        if n == 3 && (k + t[0] + 2 * t[1]) % ctx.pick(9, 2) != 0 {
+                            continue;
+                        }
+                        for &f in &factors_of(float) {
+                            cases.push(sc(Case::Regr { float: float.into(), pred: p.iter().map(|&i| ralpha[i]).collect(), truth: t.iter().map(|&i| ralpha[i]).collect(), perms: "none".into(), forms: false }, vec![f]));
+                        }
+                    }
+                }
+            }
+            for n in [5usize, 8, 17, 33] {
+                let truth: Vec<f64> = (0..n).map(|i| (i % 5) as f64 * 0.5 + 1.0).collect();
+                let pred: Vec<f64> = (0..n).map(|i| truth[i] + if i % 2 == 0 { 0.25 } else { -0.25 } * (1 + (i * 3) % n) as f64).collect();
+                for &f in &factors_of(float) {
+                    cases.push(sc(Case::Regr { float: float.into(), pred: pred.clone(), truth: truth.clone(), perms: "none".into(), forms: false }, vec![f]));
+                }
+                // multi-target: three columns with mixed factors
+                let rot: Vec<f64> = (0..n).map(|i| truth[(i + 1) % n]).collect();
+                let rev: Vec<f64> = pred.iter().rev().cloned().collect();
+                for mix in mixes_of(float) {
+                    cases.push(sc(Case::RegrMulti { float: float.into(), pred_cols: vec![pred.clone(), rev.clone(), rot.clone()], truth_cols: vec![truth.clone(), rot.clone(), truth.clone()] }, mix));
+                }
+            }
+            // S-Pearson: every 3x3 matrix over {-1,0,2} x every global factor and every per-column mix;
+            // thorough: also every 4x2 matrix
+            for q in en::sequences(9, 3) {
+                let cols: Vec<Vec<f64>> = (0..3).map(|c| q[c * 3..c * 3 + 3].iter().map(|&i| pa3[i]).collect()).collect();
+                for &f in &factors_of(float) {
+                    cases.push(sc(Case::Pearson { float: float.into(), cols: cols.clone(), perms: "none".into() }, vec![f]));
+                }
+                for mix in mixes_of(float) {
+                    cases.push(sc(Case::Pearson { float: float.into(), cols: cols.clone(), perms: "none".into() }, mix));
+                }
+            }
+            if ctx.thorough() {
+                for q in en::sequences(8, 3) {
+                    let cols: Vec<Vec<f64>> = (0..2).map(|c| q[c * 4..c * 4 + 4].iter().map(|&i| pa3[i]).collect()).collect();
+                    for &f in &factors_of(float) {
+                        cases.push(sc(Case::Pearson { float: float.into(), cols: cols.clone(), perms: "none".into() }, vec![f]));
+                    }
+                    for mix in mixes_of(float) {
+                        cases.push(sc(Case::Pearson { float: float.into(), cols: cols.clone(), perms: "none".into() }, mix));
+                    }
+                }
+            }
+            // S-silhouette: every 4-subset (thorough: 5-subset) of the lattice x every 2-labelling x every factor
+            for ss in en::subsets_upto(9, 4, ctx.pick(4, 5)) {
+                for l in en::sequences(ss.len(), 2) {
+                    let points: Vec<Vec<f64>> = ss.iter().map(|&i| lat[i].iter().map(|&v| v as f64).collect()).collect();
+                    for &f in &factors_of(float) {
+                        cases.push(sc(Case::SilhouetteF { float: float.into(), points: points.clone(), labels: l.iter().map(|&i| SIL_LABEL_VALUES[i]).collect(), perms: "none".into() }, vec![f]));
+                    }
+                }
+            }
+        }
+        // S-scores (AUC is a rank statistic: invariant under any positive factor): every score vector of
+        // length 2..3 (thorough ..4) x every truth x factors 0.5, 1e-3, 1e-6, 1e-12
+        for n in 2..=ctx.pick(3usize, 4usize) {
+            for sv in en::sequences(n, 5) {
+                for t in en::sequences(n, 2) {
+                    for f in [0.5, 1e-3, 1e-6, 1e-12] {
+                        cases.push(sc(Case::Scores { scores: sv.iter().map(|&i| score_alpha[i]).collect(), truth: t.iter().map(|&x| x == 1).collect(), perms: "none".into() }, vec![f]));
+                    }
+                }
+            }
+        }
+        ctx.extra("hardening.scaled_cases_enumerated", json!(cases.len()));
+        chunked(&mut groups, cases, 500);
+        // silhouette with four (thorough: and five) clusters, every labelling = every interleaving of the sample order
+        groups.push(Group::Sil { points: (0..8).map(|i| vec![i as f64 * 0.5 + if i % 3 == 0 { 0.125 } else { 0.0 }]).collect(), k: 4, perms: "gen" });
+        if ctx.thorough() {
+            groups.push(Group::Sil { points: (0..10).map(|i| vec![(i % 4) as f64, (i / 4) as f64 * 0.75]).collect(), k: 5, perms: "gen" });
+        }
     }
 
     let enumerated: u64 = groups.iter().map(|g| g.size()).sum();
